@@ -3,15 +3,10 @@
  * compare equal: a permutation of the ELEMENTS, not only of the keys, is what is checked).
  * BOUNDED instances only (small n, all loops and the recursion unwound): sortedness of an array is a statement about all
  * pairs, which ghost-index loop contracts cannot carry through the element shifts of an insertion / exchange sort.
- * SOPLEX_SHELLSORTMAX: the real value (25, cut from sorter.h) in instances shellsort / quicksort_small - there SPxQuicksort
- * only delegates to SPxShellsort; instance quicksort_partition compiles the SAME body with the threshold 2 so that the
- * partition loop, the degenerate-pivot branches and the recursion run on arrays of up to NMAX elements. */
+ * SOPLEX_SHELLSORTMAX is the real value (25, cut from sorter.h): for the array sizes reachable here SPxQuicksort delegates to
+ * SPxShellsort; its partition loop / recursion (n >= 26) is not covered (see unit.json). */
 #include "verif.h"
 #include "constants.h"
-#ifdef SHELLSORTMAX_OVERRIDE
-#undef SOPLEX_SHELLSORTMAX
-#define SOPLEX_SHELLSORTMAX SHELLSORTMAX_OVERRIDE
-#endif
 
 typedef int T;
 struct KeyCompare
